@@ -160,7 +160,7 @@ CHECKS = {
          "re-check round, nested rounds included, is order-independent on cells, constraint sets, alternatives and "
          "fulfilled flags from any store satisfying RoundPre), C18_elim_whole_reach_round (every store reachable by a progE "
          "program satisfies RoundPre), lockstep congruence, and C18_elim_final: for every progE program and any two schedules "
-         "the runs fail at the same command or succeed with equal values and eqr-related stores; where it is true it is proved: C18_pure_checks_partial - for programs whose "
+         "the runs fail at the same command or succeed with equal values and eqk-related stores (C18_elim_final_k); where it is true it is proved: C18_pure_checks_partial - for programs whose "
          "constraints are subtype constraints of a variable against a base type, any two schedules give the same "
          "success/failure, failing command, values and store (error kinds equal up to TypeMismatch/ConstraintViolation); for every generated program all permutations at every re-check point are imposed on "
          "/repo through the guarded hook and on the model, which must agree per schedule on the full store; divergences "
